@@ -82,10 +82,23 @@ def run_tlc(tier):
         for c in ("MemRW_E.cfg", "MemRW_RegE.cfg", "MemRW_DisE.cfg", "MemRW_VE.cfg"):
             jobs[c + "#cov"] = dict(workers=4, coverage=True, timeout=1500)
     res = {}
-    with ThreadPoolExecutor(max_workers=3 if thorough else 5) as ex:
-        futs = {k: ex.submit(_tlc, k.split("#")[0], name=k.replace("#", "-").replace(".cfg", ""), **kw) for k, kw in jobs.items()}
-        for k, f in futs.items():
-            res[k] = f.result()
+    # development only (mutant runs): C15_TLC_CACHE=<file> reuses TLC's outputs for an unchanged spec/seed/tier
+    cache = os.environ.get("C15_TLC_CACHE")
+    key = vlib.stable_hash([tier, seed, sorted(jobs), [(f.name, f.read_text()) for f in sorted(vlib.SPEC.glob("MemRW*"))]])
+    if cache and Path(cache).exists() and json.loads(Path(cache).read_text()).get("key") == key:
+        for k, v in json.loads(Path(cache).read_text())["res"].items():
+            r = vlib.TlcResult()
+            r.out, r.distinct, r.generated, r.violated, r.wall = v["out"], v["distinct"], v["generated"], v["violated"], v["wall"]
+            res[k] = r
+        vlib.log("[c15] TLC outputs taken from", cache)
+    else:
+        with ThreadPoolExecutor(max_workers=3 if thorough else 5) as ex:
+            futs = {k: ex.submit(_tlc, k.split("#")[0], name=k.replace("#", "-").replace(".cfg", ""), **kw) for k, kw in jobs.items()}
+            for k, f in futs.items():
+                res[k] = f.result()
+        if cache:
+            Path(cache).write_text(json.dumps({"key": key, "res": {k: {"out": r.out, "distinct": r.distinct, "generated": r.generated,
+                                                                      "violated": r.violated, "wall": r.wall} for k, r in res.items()}}))
     must_hold = [k for k in jobs if k.split("#")[0] not in ("MemRW_R.cfg", "MemRW_DisR.cfg", "MemRW_DisD.cfg")]
     for k in must_hold:
         if res[k].violated:
